@@ -96,6 +96,19 @@ func genC09(r *rngT, n int, tier string) {
 		execOp(fmt.Sprintf("nwrite %s %d %d %d %d %s %s", dn, ver, 2+r.Intn(253), comp, r.Intn(256), k, strings.Join(its, ";")))
 		stat("c09-node-history")
 	}
+	// the refusals of a NODE's initialisation: the same rule, checked where the node is configured (a missing version, a zero
+	// system id, an outgoing key with version 1); an accepted configuration originates one frame
+	one := encMsg(&message.MessageRaw{ID: 0, Payload: []byte{1, 2, 3}})
+	for _, v := range []int{0, 1, 2} {
+		for _, sys := range []int{0, 1, 255} {
+			for _, comp := range []int{0, 9} {
+				for _, k := range []string{"-", hx(key)} {
+					execOp(fmt.Sprintf("nwrite common %d %d %d %d %s %s@5000000", v, sys, comp, r.Intn(256), k, one))
+					stat("c09-node-init")
+				}
+			}
+		}
+	}
 	// no dialect at all
 	execOp(fmt.Sprintf("swrite - 2 1 1 0 - %s@0;%s@1", encMsg(&message.MessageRaw{ID: 0, Payload: []byte{1}}), encMsg(&message.MessageRaw{ID: 0, Payload: []byte{1}})))
 }
